@@ -7,7 +7,7 @@ import re
 
 from ..report import norm_text
 
-GOOD_MODES = ("same", "unordered")
+GOOD_MODES = ("same", "unordered", "dict-insertion")
 RESHAPE_OK = re.compile(r"^(\['-1'\]|\['rows', '-1'\]|\['(rows|-1)\+shape\(.*\)'\]|\['shape\(.*\)'\])$")
 
 
